@@ -3,8 +3,9 @@
 
   Property theorems only (helper lemmas: CelloProofs/Lemmas/Hash*.lean).
   Model: Cello/Hash.lean. Source-derived facts: CelloGen/Hash.lean (constants, step lists and tail table of `hash_data`, whether
-  `Float_Hash` normalises zero, the folds of the five container hashes) — regenerated from /repo on every run, so a source change
-  that falsifies a statement below stops this file from compiling.
+  `Float_Hash` normalises zero, the folds of the five container hashes, the offsets and widths with which Tree, Table and Array
+  move the elements they hold) — regenerated from /repo on every run, so a source change that falsifies a statement below stops
+  this file from compiling.
 -/
 import Cello.Hash
 import CelloGen.Hash
@@ -16,6 +17,9 @@ import CelloProofs.Lemmas.HashLift
 import CelloProofs.Lemmas.HashTable
 import CelloProofs.Lemmas.HashOrder
 import CelloProofs.Lemmas.HashTreeInv
+import CelloProofs.Lemmas.HashMove
+import CelloProofs.Lemmas.HashShape
+import CelloProofs.Lemmas.HashTableW
 set_option linter.unusedSimpArgs false
 set_option linter.unusedVariables false
 
@@ -194,9 +198,122 @@ theorem C10_eq_hash (addr : Nat → Bytes) (st : Store) (a b : Val) (hna : a.nan
       | table _ _ _ => simp [mapEntries] at hma
       | tree _ _ _ => simp [mapEntries] at hma
 
+/-- non-vacuity with wide entries: two Trees of different shapes holding the same Int → 24-byte-struct pairs are eq -/
+example : valCmp (fun _ => []) #[]
+    (.tree .int (.raw 6) (.node (.node .nil (.int 8, .raw 6 (List.replicate 24 8)) .nil) (.int 3, .raw 6 (List.replicate 24 3)) .nil))
+    (.tree .int (.raw 6) (.node .nil (.int 8, .raw 6 (List.replicate 24 8)) (.node .nil (.int 3, .raw 6 (List.replicate 24 3)) .nil))) = some 0 := by
+  decide
+
 /-- non-vacuity: an Array and a List with the elements 1, 2 are eq -/
 example : valCmp (fun _ => []) #[] (.seq .array .int [.int 1, .int 2]) (.seq .list .int [.int 1, .int 2]) = some 0 := by
   decide
+
+/-! ## elements of any width: what a container moves, it moves whole
+
+  Keys, values and sequence elements are values of any size (`Int`, `String`, plain structs of 1 … 40 bytes, …): `L : Layout`
+  gives the words of `struct Header`, of the key and of the value (element). The model moves elements through `blit`
+  (memcpy / memmove on 64-bit words) with the offsets and widths extracted from the source; the statements hold for every `L`. -/
+
+/-- **the widths the source gives its element moves cover the element, for every header / key / value width**: the memcpy of
+    `Tree_Rem` spans the node payload of `Tree_Alloc`; `Tree_Val` lies one header behind the key; `Table_Step` is the slot
+    (`Table_Val` + value); the two memcpys of `Table_Set_Move(move)` tile the slot behind its hash word and read from where
+    `Table_Rehash` points; `Array_Step` is header + element, and `Array_Pop_At` / `Array_Push_At` shift by exactly one slot. -/
+theorem C10_move_widths_cover (L : Layout) :
+    evalSize L CelloGen.Hash.treeRemMoveSize = evalSize L CelloGen.Hash.treeNodeTerms ∧
+    evalSize L CelloGen.Hash.treeNodeTerms = evalSize L CelloGen.Hash.treeValOff + L.vw ∧
+    evalSize L CelloGen.Hash.treeValOff = evalSize L CelloGen.Hash.treeKeyOff + L.kw + L.hw ∧
+    evalSize L CelloGen.Hash.tableStepTerms = evalSize L CelloGen.Hash.tableValOff + L.vw ∧
+    evalSize L CelloGen.Hash.tableValOff = evalSize L CelloGen.Hash.tableKeyOff + L.kw + L.hw ∧
+    evalSize L CelloGen.Hash.tableMoveKeyDst + L.hw = evalSize L CelloGen.Hash.tableKeyOff ∧
+    evalSize L CelloGen.Hash.tableMoveKeyDst + evalSize L CelloGen.Hash.tableMoveKeySize = evalSize L CelloGen.Hash.tableMoveValDst ∧
+    evalSize L CelloGen.Hash.tableMoveValDst + evalSize L CelloGen.Hash.tableMoveValSize = evalSize L CelloGen.Hash.tableStepTerms ∧
+    evalSize L CelloGen.Hash.tableRehashKeyOff = evalSize L CelloGen.Hash.tableKeyOff ∧
+    evalSize L CelloGen.Hash.tableRehashValOff = evalSize L CelloGen.Hash.tableValOff ∧
+    evalSize L CelloGen.Hash.arrayStepTerms = evalSize L CelloGen.Hash.arrayItemOff + L.vw ∧
+    CelloGen.Hash.arrayPopAtSrc = CelloGen.Hash.arrayPopAtDst + 1 ∧ CelloGen.Hash.arrayPushAtDst = CelloGen.Hash.arrayPushAtSrc + 1 := by
+  refine ⟨?_, ?_, ?_, ?_, ?_, ?_, ?_, ?_, ?_, ?_, ?_, ?_, ?_⟩ <;>
+  simp only [evalSize, termWords, CelloGen.Hash.treeRemMoveSize, CelloGen.Hash.treeNodeTerms, CelloGen.Hash.treeValOff,
+    CelloGen.Hash.treeKeyOff, CelloGen.Hash.tableStepTerms, CelloGen.Hash.tableValOff, CelloGen.Hash.tableKeyOff,
+    CelloGen.Hash.tableMoveKeyDst, CelloGen.Hash.tableMoveKeySize, CelloGen.Hash.tableMoveValDst, CelloGen.Hash.tableMoveValSize,
+    CelloGen.Hash.tableRehashKeyOff, CelloGen.Hash.tableRehashValOff, CelloGen.Hash.arrayStepTerms, CelloGen.Hash.arrayItemOff,
+    CelloGen.Hash.arrayPopAtSrc, CelloGen.Hash.arrayPopAtDst, CelloGen.Hash.arrayPushAtSrc, CelloGen.Hash.arrayPushAtDst,
+    List.foldl_cons, List.foldl_nil] <;>
+  omega
+
+/-- **`Tree_Rem` moves the in-order neighbour whole**: for every header, key and value width, after the memcpy of the
+    two-children case the node holds exactly the neighbour's key and value -/
+theorem C10_tree_rem_relocates_whole_entry (L : Layout) (pred node : Scalar × Scalar)
+    (hp : EntrySized L pred) (hn : EntrySized L node) : treeRelocate L pred node = pred :=
+  treeRelocate_full L pred node hp hn
+
+/-- an Int key with a 24-byte value: one key word, three value words -/
+def wideL : Layout := ⟨2, 1, 3⟩
+def wideA : Scalar × Scalar := (.int 7, .raw 6 [1, 0, 0, 0, 0, 0, 0, 0, 2, 0, 0, 0, 0, 0, 0, 0, 3, 0, 0, 0, 0, 0, 0, 0])
+def wideB : Scalar × Scalar := (.int 9, .raw 6 [4, 0, 0, 0, 0, 0, 0, 0, 5, 0, 0, 0, 0, 0, 0, 0, 6, 0, 0, 0, 0, 0, 0, 0])
+
+/-- a 24-byte value whose three words all differ and depend on `n` -/
+def wv (n : UInt8) : Scalar := .raw 6 [n, 0, 0, 0, 0, 0, 0, 0, n, 1, 0, 0, 0, 0, 0, 0, n, 2, 0, 0, 0, 0, 0, 0]
+
+example : EntrySized wideL wideA ∧ EntrySized wideL wideB := by decide
+
+/-- the width is what carries the statement: the same memcpy cut down to `header + ksize + header + ksize` words (the value
+    taken to be as wide as the key) leaves the tail of the node's old value in place — the node then holds neither entry -/
+theorem C10_narrow_move_refuted :
+    let narrow := treeEntryOfCells wideL wideA (blit 0 0 (wideL.hw + wideL.kw + wideL.hw + wideL.kw)
+      (treeNodeCells wideL wideA) (treeNodeCells wideL wideB))
+    narrow ≠ wideA ∧ narrow ≠ wideB ∧ treeRelocate wideL wideA wideB = wideA := by
+  decide
+
+/-- **`Tree_Set` and `Tree_Rem` on every search-tree shape act on the iteration sequence as insertion into / removal from a
+    strictly descending list** — for keys of one type, entries of any widths; the removal includes the relocation of the
+    in-order neighbour when the node has two children. So neither the shape (the rebalancing) nor the element widths show in
+    what `hash`, `cmp`, `copy` and iteration see. -/
+theorem C10_tree_ops_refine (addr : Nat → Bytes) (L : Layout) (t : Sh) (k v : Scalar) (hk : k.isNaN = false)
+    (hseq : TreeSeq addr t.toList) (hty : ∀ e ∈ t.toList, e.1.ty = k.ty ∧ EntrySized L e) :
+    (shSet addr t k v).toList = treeSet addr t.toList k v ∧
+    (shRem addr L t k).map Sh.toList = treeRem addr t.toList k :=
+  ⟨toList_shSet addr k v hk t hseq (fun e he => (hty e he).1), toList_shRem addr L k hk t hseq hty⟩
+
+/-- **a Table's slot copies move whole slots**: `memcpy(…, Table_Step(t))` over an empty or occupied slot leaves the source slot
+    there (home word, key, value), and the two memcpys of `Table_Set_Move(…, move)` rebuild the rehashed entry in `sspace0` —
+    for every header, key and value width -/
+theorem C10_table_moves_whole_slots (L : Layout) (src : Slot) (dst : Option Slot) (home1 : Nat) (h0 : home1 ≠ 0)
+    (hs : SlotSized L src) (hd : ∀ s, dst = some s → SlotSized L s) :
+    copySlot L src dst = some src ∧ loadSlot L home1 src = some { src with stored := home1 } :=
+  ⟨copySlot_full L src dst hs hd, loadSlot_full L home1 src h0 hs⟩
+
+/-- **hence `Table_Set`, `Table_Rem` (back-shift, shrinking rehash), `Table_Rehash` and `Table_New` / `Table_Assign` with all
+    their slot copies compute the slot arrays of the entry-level Table model**, and keep every slot well-sized, on every Table
+    whose keys and values fill the widths of `L` — whatever those widths are -/
+theorem C10_table_ops_any_width (addr : Nat → Bytes) (L : Layout) (t : Table) (k v : Scalar) (n : Nat) (es : List (Scalar × Scalar))
+    (ht : TableSized L t) (hk : Sized L.kw k) (hv : Sized L.vw v) (hes : ∀ e ∈ es, EntrySized L e) :
+    (tableSetW addr L t k v = tableSet addr t k v ∧ TableSized L (tableSet addr t k v)) ∧
+    (tableRemW addr L t k = tableRem addr t k ∧ ∀ t', tableRem addr t k = some t' → TableSized L t') ∧
+    (rehashW addr L t n = rehash addr t n ∧ TableSized L (rehash addr t n)) ∧
+    (tableOfEntriesW addr L es = tableOfEntries addr es ∧ TableSized L (tableOfEntries addr es)) :=
+  ⟨tableSetW_eq addr L t k v ht hk hv, tableRemW_eq addr L t k ht, rehashW_eq addr L t n ht, tableOfEntriesW_eq addr L es hes⟩
+
+/-- non-vacuity: a Table with Int keys (colliding in slot 4 of 5) and 24-byte values is well-sized, and removing the first
+    entry shifts the second back whole -/
+example : TableSized (layoutOf .int (.raw 6)) (tableOfEntries (fun _ => []) [(.int 4, wv 1), (.int 9, wv 2)]) :=
+  (tableOfEntriesW_eq _ _ _ (by decide)).2
+
+example : (tableRemW (fun _ => []) (layoutOf .int (.raw 6)) (tableOfEntries (fun _ => []) [(.int 4, wv 1), (.int 9, wv 2)]) (.int 4)).map
+    Table.entries = some [(.int 9, wv 2)] := by decide
+
+/-- **`Array_Pop_At` / `Array_Push_At` close and open exactly one element slot**: the memmoves of the source, on elements of any
+    width, remove element `i` / insert before element `i` and leave every other element as it was -/
+theorem C10_array_moves_whole_elements (L : Layout) (A B : List Scalar) (x y : Scalar)
+    (h : ∀ z ∈ A ++ x :: B, Sized L.vw z) :
+    arrayPopAt L (A ++ x :: B) A.length = A ++ B ∧ arrayPushAt L (A ++ B) A.length y = A ++ y :: B :=
+  ⟨arrayPopAt_eq L A B x h, arrayPushAt_eq L A B y (fun z hz => h z (by
+    rcases List.mem_append.mp hz with hz | hz
+    · simp [hz]
+    · simp [hz]))⟩
+
+/-- non-vacuity: 12-byte elements (two words in an Array: `Array_Size_Round`), popping the middle one -/
+example : arrayPopAt ⟨2, 0, 2⟩ [.raw 3 [1,2,3,4,5,6,7,8,9,10,11,12], .raw 3 [0,0,0,0,0,0,0,0,0,0,0,1], .raw 3 [9,9,9,9,9,9,9,9,9,9,9,9]] 1 =
+    [.raw 3 [1,2,3,4,5,6,7,8,9,10,11,12], .raw 3 [9,9,9,9,9,9,9,9,9,9,9,9]] := by decide
 
 /-! ## copy and assign -/
 
@@ -209,10 +326,11 @@ def AssignCovered : Val → Val → Prop
   | .tree _ _ _, .tree _ _ _ => True
   | _, _ => False
 
-/-- the source, if a Tree, is a Tree: its iteration sequence is strictly descending; if a Tuple, its items are scalar objects
-    of the store (the domain of this engine) -/
+/-- the source, if a Tree, is a Tree: its iteration sequence is strictly descending, its keys are non-NaN values of its key type
+    (any search-tree shape, entries of any widths); if a Tuple, its items are scalar objects of the store (the domain of this
+    engine) -/
 def SrcWellFormed (addr : Nat → Bytes) (st : Store) : Val → Prop
-  | .tree _ _ es => TreeSeq addr es
+  | .tree kt _ t => TreeSeq addr t.toList ∧ ∀ e ∈ t.toList, e.1.ty = kt ∧ e.1.isNaN = false
   | .tuple ids => ∃ xs, ids.mapM st.scalar = some xs
   | _ => True
 
@@ -266,9 +384,11 @@ theorem C10_assign_eq (addr : Nat → Bytes) (st : Store) (cls : Cls) (self src 
     | tree kt' vt' es' =>
       simp only [assignVal] at h
       cases h
-      have hw : TreeSeq addr es' := hwf
-      rw [treeOfEntries_of_treeSeq addr es' hw]
-      exact ⟨by rw [valCmp_map (xs := es') (ys := es') rfl rfl]; exact mapCmp_self (scalarCmp_self addr) (scalarCmp_self addr) es', rfl⟩
+      obtain ⟨hw, hkeys⟩ : TreeSeq addr es'.toList ∧ ∀ e ∈ es'.toList, e.1.ty = kt' ∧ e.1.isNaN = false := hwf
+      have hre := shOfEntries_toList addr kt' es'.toList hw hkeys
+      refine ⟨?_, by simp [valHash, hre]⟩
+      rw [valCmp_map (xs := es'.toList) (ys := es'.toList) (by simp [mapEntries, hre]) rfl]
+      exact mapCmp_self (scalarCmp_self addr) (scalarCmp_self addr) _
     | sc _ => exact absurd hcov (by simp [AssignCovered])
     | seq _ _ _ => exact absurd hcov (by simp [AssignCovered])
     | tuple _ => exact absurd hcov (by simp [AssignCovered])
@@ -314,43 +434,53 @@ theorem C10_type_copy_refused (addr : Nat → Bytes) (st : Store) (n m : Bytes) 
     copyVal addr st (.sc (.typ n)) = .error .valueError ∧
     assignVal addr st cls (.sc (.typ n)) (.sc (.typ m)) = .error .valueError := ⟨rfl, rfl⟩
 
-/-- non-vacuity for Trees: a two-entry Tree sequence (keys 55 > 0) is well formed -/
-example : SrcWellFormed (fun _ => []) #[] (.tree .int .int [(.int 55, .int 1), (.int 0, .int 2)]) := by
-  simp [SrcWellFormed, TreeSeq, Desc, scalarCmp]; decide
+/-- non-vacuity for Trees: a two-entry Tree (keys 55 > 0, 24-byte values) is well formed -/
+example : SrcWellFormed (fun _ => []) #[] (.tree .int (.raw 6)
+    (.node (.node .nil (.int 55, wideA.2) .nil) (.int 0, wideB.2) .nil)) := by
+  simp [SrcWellFormed, Sh.toList, TreeSeq, Desc, scalarCmp, Scalar.ty, Scalar.isNaN]; decide
 
-/-- **for a Tree, eq and hash are functions of the abstract map, independent of the insertion history**: two Trees (strictly
-    descending iteration sequences) with the same set of entries have the same iteration sequence, hence compare eq and hash
-    alike -/
-theorem C10_tree_history_independent (addr : Nat → Bytes) (st : Store) (kt vt kt' vt' : Ty) (xs ys : List (Scalar × Scalar))
-    (hx : TreeSeq addr xs) (hy : TreeSeq addr ys) (h : ∀ e, e ∈ xs ↔ e ∈ ys) :
-    valCmp addr st (.tree kt vt xs) (.tree kt' vt' ys) = some 0 ∧
-    valHash addr st (.tree kt vt xs) = valHash addr st (.tree kt' vt' ys) := by
+/-- **for a Tree, eq and hash are functions of the abstract map, independent of the insertion history, of the shape the
+    rebalancing gave it, and of the widths of its keys and values**: two Trees (any two search-tree shapes whose iteration
+    sequences descend strictly) with the same set of entries have the same iteration sequence, hence compare eq and hash alike -/
+theorem C10_tree_history_independent (addr : Nat → Bytes) (st : Store) (kt vt kt' vt' : Ty) (s t : Sh)
+    (hx : TreeSeq addr s.toList) (hy : TreeSeq addr t.toList) (h : ∀ e, e ∈ s.toList ↔ e ∈ t.toList) :
+    valCmp addr st (.tree kt vt s) (.tree kt' vt' t) = some 0 ∧
+    valHash addr st (.tree kt vt s) = valHash addr st (.tree kt' vt' t) := by
   have e := treeSeq_unique hx hy h
-  subst e
-  exact ⟨by rw [valCmp_map (xs := xs) (ys := xs) rfl rfl]; exact mapCmp_self (scalarCmp_self addr) (scalarCmp_self addr) xs, rfl⟩
+  refine ⟨?_, by simp [valHash, e]⟩
+  rw [valCmp_map (xs := s.toList) (ys := t.toList) rfl rfl, e]
+  exact mapCmp_self (scalarCmp_self addr) (scalarCmp_self addr) _
 
 /-- **every Tree reached by any history is well formed, so its copy is eq and hashes alike, and two histories that end in the
-    same set of entries give eq Trees with equal hashes**: histories are arbitrary sequences of `set` (insert or update) and
-    `rem` (a `rem` of an absent key raises KeyError and changes nothing) from the empty Tree, with non-NaN keys. -/
-theorem C10_tree_histories (addr : Nat → Bytes) (st : Store) (kt vt : Ty) (h₁ h₂ : List TreeOp)
-    (ok₁ : ∀ o ∈ h₁, o.keyOk = true) (ok₂ : ∀ o ∈ h₂, o.keyOk = true) :
-    let t₁ := runTreeOps addr [] h₁
-    let t₂ := runTreeOps addr [] h₂
-    TreeSeq addr t₁ ∧
+    same set of entries give eq Trees with equal hashes** — for every key type, every header / key / value width `L`, and
+    whatever the rebalancing does to the shape: histories (`ShReach`) are arbitrary sequences of `set` (insert or update of an
+    entry of the widths of `L` under a non-NaN key), `rem` (with the relocation of the in-order neighbour at the width of the
+    source; a `rem` of an absent key raises KeyError and changes nothing) and any relinking that keeps the in-order sequence
+    (what the rotations of `Tree_Set_Fix` / `Tree_Rem_Fix` do), from the empty Tree. -/
+theorem C10_tree_histories (addr : Nat → Bytes) (st : Store) (kt vt : Ty) (L : Layout) (t₁ t₂ : Sh)
+    (r₁ : ShReach addr kt L t₁) (r₂ : ShReach addr kt L t₂) :
+    ShInv addr kt L t₁ ∧
     (∃ v, copyVal addr st (.tree kt vt t₁) = .ok v ∧ valCmp addr st v (.tree kt vt t₁) = some 0 ∧
         valHash addr st v = valHash addr st (.tree kt vt t₁)) ∧
-    ((∀ e, e ∈ t₁ ↔ e ∈ t₂) →
+    ((∀ e, e ∈ t₁.toList ↔ e ∈ t₂.toList) →
         valCmp addr st (.tree kt vt t₁) (.tree kt vt t₂) = some 0 ∧
         valHash addr st (.tree kt vt t₁) = valHash addr st (.tree kt vt t₂)) := by
-  have w₁ := runTreeOps_treeSeq addr h₁ [] (by simp [TreeSeq]) ok₁
-  have w₂ := runTreeOps_treeSeq addr h₂ [] (by simp [TreeSeq]) ok₂
-  exact ⟨w₁, C10_copy_eq addr st (.tree kt vt _) (by simp [CopyCovered]) w₁,
-    fun h => C10_tree_history_independent addr st kt vt kt vt _ _ w₁ w₂ h⟩
+  have w₁ := r₁.inv
+  have w₂ := r₂.inv
+  exact ⟨w₁, C10_copy_eq addr st (.tree kt vt _) (by simp [CopyCovered]) ⟨w₁.1, fun e he => (w₁.2 e he).1⟩,
+    fun h => C10_tree_history_independent addr st kt vt kt vt _ _ w₁.1 w₂.1 h⟩
 
-/-- non-vacuity: inserting 0 then 55, or 55, 7, 0 and removing 7, ends in the same Tree sequence -/
-example : runTreeOps (fun _ => []) [] [.set (.int 0) (.int 1), .set (.int 55) (.int 2)] =
-    runTreeOps (fun _ => []) [] [.set (.int 55) (.int 2), .set (.int 7) (.int 9), .set (.int 0) (.int 1), .rem (.int 7)] := by
+/-- non-vacuity: Int keys with 24-byte values; inserting 5, 3, 8 and removing the root 5 — a node with two children, so the
+    entry of its in-order neighbour 8 is relocated — ends in the same iteration sequence as inserting 3 and 8 directly -/
+example :
+    let t := shSet (fun _ => []) (shSet (fun _ => []) (shSet (fun _ => []) .nil (.int 5) (wv 5)) (.int 3) (wv 3)) (.int 8) (wv 8)
+    (shRem (fun _ => []) wideL t (.int 5)).map Sh.toList = some [(.int 8, wv 8), (.int 3, wv 3)] ∧
+    (shRem (fun _ => []) wideL t (.int 5)).map Sh.size = some 2 ∧
+    (shSet (fun _ => []) (shSet (fun _ => []) .nil (.int 3) (wv 3)) (.int 8) (wv 8)).toList = [(.int 8, wv 8), (.int 3, wv 3)] := by
   decide
+
+example : ShReach (fun _ => []) .int wideL (shSet (fun _ => []) .nil (.int 5) (wv 5)) :=
+  .set .nil rfl rfl (by decide)
 
 /-! ### Table: copy/assign under `Table_Cmp`, which iterates in slot order (known finding F06) -/
 
@@ -361,13 +491,16 @@ def C10_copy_eq_table_statement : Prop :=
     valCmp addr st v (.table kt vt (tableOfEntries addr es)) = some 0
 
 /-- what is proved instead: when re-inserting the entries in slot order reproduces the slot order (in particular for every
-    Table whose entries all sit in their home slots), the copy — and any Table assigned from it — is eq and hashes alike. -/
+    Table whose entries all sit in their home slots), the copy — and any Table assigned from it — is eq and hashes alike;
+    keys and values of any widths (`TableSized`: they fill the words their types declare). -/
 theorem C10_copy_eq_table_partial (addr : Nat → Bytes) (st : Store) (kt vt kt' vt' : Ty) (t t' : Table) (cls : Cls)
+    (hsz : TableSized (layoutOf kt vt) t)
     (hsame : (tableOfEntries addr t.entries).entries = t.entries) :
     ∃ v, assignVal addr st cls (.table kt' vt' t') (.table kt vt t) = .ok v ∧
       copyVal addr st (.table kt vt t) = .ok v ∧
       valCmp addr st v (.table kt vt t) = some 0 ∧ valHash addr st v = valHash addr st (.table kt vt t) := by
-  refine ⟨.table kt vt (tableOfEntries addr t.entries), rfl, rfl, ?_, ?_⟩
+  have hw := (tableOfEntriesW_eq addr (layoutOf kt vt) t.entries hsz.entries).1
+  refine ⟨.table kt vt (tableOfEntries addr t.entries), by simp [assignVal, hw], by simp [copyVal, assignVal, blankOf, hw], ?_, ?_⟩
   · rw [valCmp_map (xs := (tableOfEntries addr t.entries).entries) (ys := t.entries) rfl rfl, hsame]
     exact mapCmp_self (scalarCmp_self addr) (scalarCmp_self addr) _
   · simp [valHash, hsame]
@@ -379,29 +512,38 @@ theorem C10_copy_table_hash_of_perm (addr : Nat → Bytes) (st : Store) (kt vt :
   simp only [valHash]; exact mapHash_perm _ _ _ hperm
 
 /-- **the copy of a Table holds the same abstract map and hashes the same, whatever the two slot orders are** — for every
-    Table whose keys are pairwise different under `eq` (the Table invariant), every hash function and allocation class:
-    robin-hood re-insertion (`Table_Assign` → `Table_Set_Move`) keeps the multiset of entries. Only `eq` itself can fail
-    (`C10_table_cmp_refuted`). -/
+    Table whose keys are pairwise different under `eq` (the Table invariant), every hash function and allocation class, keys
+    and values of any widths: robin-hood re-insertion (`Table_Assign` → `Table_Set_Move`, every slot copy at `Table_Step`)
+    keeps the multiset of entries. Only `eq` itself can fail (`C10_table_cmp_refuted`). -/
 theorem C10_copy_table_hash (addr : Nat → Bytes) (st : Store) (kt vt kt' vt' : Ty) (t t' : Table) (cls : Cls)
-    (hd : EntryKeysDistinct addr t.entries) :
+    (hsz : TableSized (layoutOf kt vt) t) (hd : EntryKeysDistinct addr t.entries) :
     ∃ c : Table, copyVal addr st (.table kt vt t) = .ok (.table kt vt c) ∧
       assignVal addr st cls (.table kt' vt' t') (.table kt vt t) = .ok (.table kt vt c) ∧
       c.entries.Perm t.entries ∧
-      valHash addr st (.table kt vt c) = valHash addr st (.table kt vt t) :=
-  ⟨tableOfEntries addr t.entries, rfl, rfl, tableOfEntries_perm addr _ hd,
-    C10_copy_table_hash_of_perm addr st kt vt t (tableOfEntries_perm addr _ hd)⟩
+      valHash addr st (.table kt vt c) = valHash addr st (.table kt vt t) := by
+  have hw := (tableOfEntriesW_eq addr (layoutOf kt vt) t.entries hsz.entries).1
+  exact ⟨tableOfEntries addr t.entries, by simp [copyVal, assignVal, blankOf, hw], by simp [assignVal, hw],
+    tableOfEntries_perm addr _ hd, C10_copy_table_hash_of_perm addr st kt vt t (tableOfEntries_perm addr _ hd)⟩
 
 /-- **assignment across the two map kinds** (Table from Tree, Tree from Table): the target holds a permutation of the
-    source's entries and hashes like the source, for every entry sequence with pairwise different comparable keys -/
-theorem C10_assign_across_maps (addr : Nat → Bytes) (st : Store) (kt vt : Ty) (es : List (Scalar × Scalar))
-    (hd : es.Pairwise (KeysApart addr)) :
-    (tableOfEntries addr es).entries.Perm es ∧ (treeOfEntries addr es).Perm es ∧
-    valHash addr st (.table kt vt (tableOfEntries addr es)) = valHash addr st (.tree kt vt es) ∧
-    valHash addr st (.tree kt vt (treeOfEntries addr es)) = valHash addr st (.tree kt vt es) := by
-  have h1 := tableOfEntries_perm addr es (entryKeysDistinct_of_apart hd)
-  have h2 := treeOfEntries_perm addr es hd
-  exact ⟨h1, h2, (C10_container_hash_map (scalarHash addr) (scalarHash addr) h1).2.2,
-    (C10_container_hash_map (scalarHash addr) (scalarHash addr) h2).2.1⟩
+    source's entries and hashes like the source — for every source whose keys are pairwise different, comparable, non-NaN
+    values of one type and whose entries fill the widths of their types (any widths, any Tree shape, any slot layout) -/
+theorem C10_assign_across_maps (addr : Nat → Bytes) (st : Store) (kt vt kt' vt' : Ty) (cls : Cls) (s s' : Sh) (t t' : Table)
+    (hds : s.toList.Pairwise (KeysApart addr)) (hdt : t.entries.Pairwise (KeysApart addr))
+    (hss : ∀ e ∈ s.toList, EntrySized (layoutOf kt vt) e) (htt : ∀ e ∈ t.entries, e.1.ty = kt ∧ e.1.isNaN = false) :
+    (∃ c : Table, assignVal addr st cls (.table kt' vt' t') (.tree kt vt s) = .ok (.table kt vt c) ∧ c.entries.Perm s.toList ∧
+      valHash addr st (.table kt vt c) = valHash addr st (.tree kt vt s)) ∧
+    (∃ c : Sh, assignVal addr st cls (.tree kt' vt' s') (.table kt vt t) = .ok (.tree kt vt c) ∧ c.toList.Perm t.entries ∧
+      valHash addr st (.tree kt vt c) = valHash addr st (.table kt vt t)) := by
+  have hw := (tableOfEntriesW_eq addr (layoutOf kt vt) s.toList hss).1
+  have h1 := tableOfEntries_perm addr s.toList (entryKeysDistinct_of_apart hds)
+  have h2 : (shOfEntries addr t.entries).toList.Perm t.entries := by
+    rw [shOfEntries_eq addr kt t.entries htt]; exact treeOfEntries_perm addr t.entries hdt
+  exact ⟨⟨tableOfEntries addr s.toList, by simp [assignVal, hw], h1,
+      (C10_container_hash_map (scalarHash addr) (scalarHash addr) h1).2.2⟩,
+    ⟨shOfEntries addr t.entries, rfl, h2, by
+      simp only [valHash]
+      exact ((C10_container_hash_map (scalarHash addr) (scalarHash addr) h2.symm).2.2).symm⟩⟩
 
 /-- non-vacuity: the keys 4 and 9 are apart -/
 example : [(Scalar.int 4, Scalar.int 1), (Scalar.int 9, Scalar.int 2)].Pairwise (KeysApart (fun _ => [])) := by
